@@ -135,18 +135,27 @@ def impl(c):
     results = []
     for slot, s, kind in probes:
         results.append([slot, s, kind, _probe(R, slot, s)])
+    # binding: what the non-mutating endpoints say a genuine token belongs to, asked by every registered client
+    owner = {hg: [g.sub, path[1]] for hg, (g, path) in R.gobj.items()}
+    binding = []
+    for m in minted:
+        binding.append(["userinfo", m[0], "client_1", R.resolve_raw("userinfo", m[0])])
+        for caller in prov.CLIENTS:
+            binding.append(["introspect", m[0], caller, R.resolve_raw("introspect", m[0], caller)])
     after = R.projection()
     STATS["probes"] += len(results)
     STATS["honoured"] += sum(1 for r in results if r[3])
     for r in results:
         STATS["by_kind"][r[2]] = STATS["by_kind"].get(r[2], 0) + 1
-    return {"minted": minted, "results": results, "state_unchanged": before == after}
+    STATS["binding_probes"] = STATS.get("binding_probes", 0) + len(binding)
+    return {"minted": minted, "results": results, "state_unchanged": before == after, "binding": binding, "owner": {str(k): v for k, v in owner.items()}}
 
 
 def model_lines(c, obs):
     US = "\x1f"
     minted = enc_list([US.join([m[0], m[1], str(m[2]), "1" if m[3] else "0"]) for m in obs["minted"]])
-    return ["\t".join(["res", "honour", slot, enc_str(s), minted]) for slot, s, kind, r in obs["results"]]
+    return (["\t".join(["res", "honour", slot, enc_str(s), minted]) for slot, s, kind, r in obs["results"]] +
+            ["\t".join(["res", "honour", slot, enc_str(s), minted]) for slot, s, caller, who in obs["binding"]])
 
 
 def compare(c, obs, outs):
@@ -157,6 +166,16 @@ def compare(c, obs, outs):
             d.append(f"{slot} {kind} {s[:60]!r}: model={o} impl={'honoured' if r else 'refused'}")
             if len(d) > 2:
                 break
+    n = len(obs["results"])
+    for (slot, s, caller, who), o in zip(obs["binding"], outs[n:]):
+        if o.startswith("honoured"):
+            want = obs["owner"].get(o.split(" ")[1])
+            if who is None or want is None or who[0] != want[0] or (slot == "introspect" and who[1] != want[1]):
+                d.append(f"{slot} by {caller}: model resolves to session {o.split(' ')[1]} = {want}, implementation says {who}")
+                break
+        elif who is not None:
+            d.append(f"{slot} by {caller}: model refuses, implementation answers {who}")
+            break
     return d
 
 
@@ -171,6 +190,13 @@ def oracle(c, obs):
                 v.append({"cls": "unminted-string-honoured", "slot": slot, "kind": kind})
             elif m[1] not in acc[slot]:
                 v.append({"cls": "wrong-class-honoured", "slot": slot, "token_class": m[1]})
+    for slot, s, caller, who in obs["binding"]:
+        if who is not None:
+            m = by_val.get(s)
+            want = obs["owner"].get(str(m[2])) if m else None
+            if want is None or who[0] != want[0] or (slot == "introspect" and who[1] != want[1]):
+                v.append({"cls": "token-resolves-to-another-session", "slot": slot, "caller_is_owner": bool(want) and caller == want[1]})
+                break
     if not obs["state_unchanged"]:
         v.append({"cls": "refused-probe-changed-state"})
     return v[:3]
@@ -189,4 +215,4 @@ def nontrivial(c, obs):
 
 
 def evidence_extra():
-    return {"probes": STATS["probes"], "probes_honoured": STATS["honoured"], "probes_by_kind": STATS["by_kind"]}
+    return {"probes": STATS["probes"], "probes_honoured": STATS["honoured"], "probes_by_kind": STATS["by_kind"], "binding_probes": STATS.get("binding_probes", 0)}
